@@ -147,7 +147,8 @@ Inductive leaf :=
 | LScaling (s : T)                                      (* ScalingOperator / IdentityOperator *)
 | LZero                                                 (* ZeroOperator (domain = range) *)
 | LConst (c : val)                                      (* ConstantOperator *)
-| LMult (m : sval).                                     (* MultiplyOperator *)
+| LMult (m : sval)                                      (* MultiplyOperator *)
+| LMat (m : list (list T)).                             (* MatrixOperator (dense, 1-d range; may be non-square inside a composition) *)
 
 (* x - g  (LinearSpaceElement.__sub__): tmp = space.element(); lincomb(1, x, -1, g, out=tmp) *)
 Definition sub_param (x : ref) (g : val) (h : heap) : ref * heap :=
@@ -351,6 +352,7 @@ Definition leaf_ip (l : leaf) (x out : ref) (h : heap) : heap :=
       let '(t, h1) := fresh (length x) h in
       let h2 := st1 (mult_val m) x t h1 in
       st1 (fun a => a) t out h2
+  | LMat m => st1 (map (mvec m)) x out h                                  (* self.matrix.dot(x, out=out_arr) *)
   end.
 
 (* out-of-place evaluation of a leaf.  The proximal classes have a mandatory
@@ -364,6 +366,7 @@ Definition leaf_oop (l : leaf) (x : ref) (h : heap) : ref * heap :=
   | LZero => (t, st1 (scal nzero) x t h1)                                 (* out = 0 * x *)
   | LConst c => (t, st0 c t h1)                                           (* range.element(copy(constant)) *)
   | LMult m => (t, st1 (mult_val m) x t h1)                               (* x * self.multiplicand *)
+  | LMat m => (t, st1 (map (mvec m)) x t h1)                              (* np.tensordot(self.matrix, x, ...) *)
   | _ => (t, leaf_ip l x t h1)
   end.
 
@@ -448,6 +451,7 @@ Definition leaf_pure (l : leaf) (v : val) : val :=
   | LZero => scal nzero v
   | LConst c => c
   | LMult m => mult_val m v
+  | LMat m => map (mvec m) v
   end.
 
 (* ----------------------------------------- operator arithmetic (operator.py) *)
